@@ -17,6 +17,7 @@ DHCP table.  `track`/`run` execute a history from a state.
 -/
 import AGH.Lemmas.ClientsHistory
 import AGH.Lemmas.ClientsSetIDs
+import AGH.Lemmas.ClientsPersist
 namespace AGH.C04
 open AGH AGH.Bytes
 open AGH.C03 (IP Prefix inCIDR)
@@ -162,22 +163,8 @@ are not vacuous. -/
 theorem C04_add_accepted (s : Storage) (h : Inv s.index) (c : Client) (hv : c.validate = none)
     (hfresh : ∀ d ∈ s.index.clients, d.uid ≠ c.uid) (hmac : ∀ m ∈ c.macs, macOK m = true)
     (hfree : ∀ d ∈ s.index.clients, ∀ k, k ∈ c.idents → k ∉ d.idents) :
-    (s.add c).2 = .ok := by
-  have key : ∀ {κ : Type} {m : FMap κ} {ids : Client → List κ} (mk : κ → Ident),
-      MapInv m s.index.clients ids → (∀ d k, mk k ∈ d.idents ↔ k ∈ ids d) →
-      ∀ ks, (∀ k ∈ ks, mk k ∈ c.idents) → FreeFor m c.uid ks := by
-    intro κ m ids mk hm hmk ks hks k hk u hu
-    obtain ⟨d, hd, _, hkd⟩ := (hm k u).mp hu
-    exact absurd ((hmk d k).mpr hkd) (hfree d hd (mk k) (hks k hk))
-  have hnc : NoClash s.index c :=
-    { name := key Ident.name h.names (by intro d k; simp) [c.name] (by intro k hk; simp at hk; simp [hk])
-      cids := key Ident.cid h.cids (by intro d k; simp) c.cids (by intro k hk; simp [hk])
-      ips := key Ident.ip h.ips (by intro d k; simp) c.ips (by intro k hk; simp [hk])
-      subs := key Ident.subnet h.subs (by intro d k; simp) c.subnets (by intro k hk; simp [hk])
-      macs := key Ident.mac h.macs (by intro d k; simp) c.macs (by intro k hk; simp [hk]) }
-  have hcl := (h.clashes_spec c).1.mpr ⟨hnc, hmac⟩
-  unfold Storage.add
-  simp [hv, Index.client_eq_none.mpr hfresh, hcl]
+    (s.add c).2 = .ok :=
+  Storage.add_accepted s h c hv hfresh hmac hfree
 
 /-- No operation crashes unless a client carries a hardware address of an
 impossible length (not 6, 8 or 20 bytes — `net.ParseMAC` never produces one). -/
@@ -344,6 +331,76 @@ example :
       = some (.ip (.v6 0x0011002200330044005500660077 [])) ∧
     (IDString.ident ⟨[48], none, none, some [0, 17, 34, 51, 68, 85, 102, 119]⟩)
       = some (.mac [0, 17, 34, 51, 68, 85, 102, 119]) := by decide
+
+/-! ### the configuration file and restart
+
+FINDING (EUI-64).  The unconditional statement "`toPersistent (forConfig c) = c`
+for every stored client" is FALSE for the code as it is: `Persistent.IDs` prints
+a MAC with colons, an 8-byte MAC printed that way is also the text of an IPv6
+address, and `SetIDs` asks the address parser first — so after a configuration
+write and a restart the client is known by an IPv6 address instead of its MAC
+(`C04_counterexample_restart_eui64_before_fix`; the witness on the real code is
+corpus/C04/finding-eui64-restart.txt).  The prepared repair
+(fixes/c04/eui64_ids.patch) prints such a MAC with hyphens; the model carries
+both variants (`fix`), `Persistable false` excludes 8-byte MACs, `Persistable
+true` does not. -/
+
+/-- The configuration record that `forConfig` writes for a persistable client is
+read back by `toPersistent` as that very client: every identifier of every
+kind, both "use own" switches, all own settings, blocked services and schedule,
+tags, upstreams and cache settings, safe-search config and engine, ignore
+flags, name, UID. -/
+theorem C04_persist_roundtrip (fix : Bool) (c : Client) (h : Persistable fix c) :
+    (c.forConfig fix).toPersistent = some (.ok c) :=
+  roundtrip h
+
+/-- With the repair the round trip needs no condition on the MACs at all: 6, 8
+and 20-byte hardware addresses all come back as themselves. -/
+theorem C04_persist_roundtrip_repaired (c : Client) (huid : c.uid ≠ 0)
+    (h1 : sortBy ipLt c.ips = c.ips)
+    (h2 : sortBy (fun x y => subnetCompare x y == .lt) c.subnets = c.subnets)
+    (h3 : sortBy (fun x y => compare x y == .lt) c.macs = c.macs)
+    (h4 : sortBy (fun x y => compare x y == .lt) c.cids = c.cids)
+    (h5 : ∀ id ∈ c.cids, id ≠ [] ∧ C16.validLabel id = true ∧ Bytes.lower id = id)
+    (h6 : c.safeSearch = if c.safeSearchEnabled then 1 else 0) :
+    (c.forConfig true).toPersistent = some (.ok c) :=
+  roundtrip (fix := true)
+    { uid := huid, ips := h1, subnets := h2, macs := h3, cids := h4
+      noEUI64 := fun hf => Bool.noConfusion hf, labels := h5, engine := h6 }
+
+/-- After any history, if every stored client is persistable, a restart brings
+up a storage that implements the SAME registry: same clients, consistent index,
+and every probe (lookups by name and identifier, `Find`, the per-request
+filtering settings) shows exactly what it showed before the restart. -/
+theorem C04_restart_same_registry {fix : Bool} {s : Storage} {w : World} (hr : Refines s w)
+    (hp : ∀ c ∈ s.index.clients, Persistable fix c ∧ c.validate = none ∧ ∀ m ∈ c.macs, macOK m = true) :
+    ∃ s', s.restart fix = (s', .ok) ∧ Refines s' w ∧
+      ∀ p, probeInScope w p = true → modelSeen s' p = modelSeen s p := by
+  obtain ⟨s', h1, h2, h3, h4⟩ := restart_ok hr.inv hp
+  have hr' : Refines s' w := ⟨h2, h3.trans hr.perm, h4.trans hr.dhcp⟩
+  refine ⟨s', h1, hr', ?_⟩
+  intro p hsc
+  rw [modelSeen_expected hr' p hsc, modelSeen_expected hr p hsc]
+
+private def euiMAC : MAC := [0, 17, 34, 51, 68, 85, 102, 119]
+
+private def euiClient : Client :=
+  { uid := 1, name := [97], ips := [], subnets := [], macs := [euiMAC], cids := []
+    invalidConf := false, useOwnSettings := false, filteringEnabled := false, safeSearchEnabled := false
+    safeBrowsingEnabled := false, parentalEnabled := false, useOwnBlockedServices := false, svc := 1
+    safeSearch := 0, tags := 0, ver := 1 }
+
+/-- The finding on the model: a client known by the EUI-64 `00-11-22-33-44-55-66-77`
+is found by it before the restart and by nobody after it; it is now known by
+the IPv6 address `0:11:22:33:44:55:66:77`.  With the repair it keeps its MAC. -/
+theorem C04_counterexample_restart_eui64_before_fix :
+    let s := (Storage.empty.add euiClient).1
+    (Storage.empty.add euiClient).2 = .ok ∧ s.findByMAC euiMAC = .client euiClient ∧
+    (s.restart false).2 = .ok ∧ (s.restart false).1.findByMAC euiMAC = .none ∧
+    ((s.restart false).1.index.findByIP (.v6 0x0011002200330044005500660077 [])).opt.map (·.uid) = some 1 ∧
+    -- with the repair the client keeps its MAC
+    (s.restart true).2 = .ok ∧ (s.restart true).1.findByMAC euiMAC = .client euiClient := by
+  decide +kernel
 
 /-! ### at most one client -/
 
